@@ -294,3 +294,77 @@ def decorated_functions(model):
                 continue
             out.append((q, name or ast.dump(d)[:40], 'unknown', '', d.lineno))
     return out
+
+
+# ---- class-level containers --------------------------------------------------------------------------------------------
+_MUTABLE_CTORS = frozenset(['dict', 'list', 'set', 'bytearray', 'OrderedDict', 'defaultdict', 'deque', 'Counter'])
+_MUTATORS = frozenset(['append', 'extend', 'insert', 'remove', 'pop', 'popitem', 'clear', 'update', 'setdefault', 'add',
+                       'discard', 'sort', 'reverse', 'move_to_end', 'appendleft', 'popleft', '__setitem__', '__delitem__'])
+
+
+def _is_mutable_value(node):
+    if _is_mutable_display(node):
+        return True
+    if isinstance(node, ast.Call):
+        f = node.func
+        name = f.id if isinstance(f, ast.Name) else (f.attr if isinstance(f, ast.Attribute) else None)
+        return name in _MUTABLE_CTORS
+    return False
+
+
+def _always_assigns(model, cname, meth, attr, seen):
+    """does `self.<attr> = ...` sit on the straight-line top level of the method (or of a method it calls there)?"""
+    if (cname, meth) in seen:
+        return False
+    seen.add((cname, meth))
+    c, fn = model.lookup(cname, meth)
+    if fn is None:
+        return False
+    for s in fn.body:
+        if isinstance(s, ast.Return):
+            return False
+        targets = s.targets if isinstance(s, ast.Assign) else ([s.target] if isinstance(s, ast.AnnAssign) and s.value is not None else [])
+        for t in targets:
+            if isinstance(t, ast.Attribute) and t.attr == attr and isinstance(t.value, ast.Name) and t.value.id == 'self':
+                return True
+        if isinstance(s, ast.Expr) and isinstance(s.value, ast.Call) and isinstance(s.value.func, ast.Attribute) \
+                and isinstance(s.value.func.value, ast.Name) and s.value.func.value.id == 'self':
+            if _always_assigns(model, cname, s.value.func.attr, attr, seen):
+                return True
+    return False
+
+
+def class_level_mutables(model):
+    """[(class, attr, lineno, owned, (qualname, lineno, what) | None)] for containers created in a class body: `owned` says
+    that every instance gets its own object in __init__ (straight-line assignment, possibly in a method called from
+    there); the last item is an in-place mutation through `<expr>.attr` somewhere in the package, if there is one.  A
+    container that is mutated in place and not owned is one object shared by every instance - copies included."""
+    out = []
+    for cname, ci in sorted(model.classes.items()):
+        for s in ci.node.body:
+            if isinstance(s, ast.Assign) and len(s.targets) == 1 and isinstance(s.targets[0], ast.Name):
+                name, value = s.targets[0].id, s.value
+            elif isinstance(s, ast.AnnAssign) and isinstance(s.target, ast.Name) and s.value is not None:
+                name, value = s.target.id, s.value
+            else:
+                continue
+            if not _is_mutable_value(value):
+                continue
+            mutation = None
+            for c2, fn, mod in functions(model):
+                q = '%s.%s' % (c2, fn.name) if c2 else fn.name
+                for n in ast.walk(fn):
+                    hit = None
+                    if isinstance(n, ast.Call) and isinstance(n.func, ast.Attribute) and n.func.attr in _MUTATORS \
+                            and isinstance(n.func.value, ast.Attribute) and n.func.value.attr == name:
+                        hit = '.%s()' % n.func.attr
+                    elif isinstance(n, ast.Subscript) and isinstance(n.ctx, (ast.Store, ast.Del)) \
+                            and isinstance(n.value, ast.Attribute) and n.value.attr == name:
+                        hit = 'item assignment / deletion'
+                    elif isinstance(n, ast.AugAssign) and isinstance(n.target, ast.Attribute) and n.target.attr == name:
+                        hit = 'augmented assignment'
+                    if hit and mutation is None:
+                        mutation = (q, n.lineno, hit)
+            owned = _always_assigns(model, cname, '__init__', name, set())
+            out.append((cname, name, s.lineno, owned, mutation))
+    return out
